@@ -57,6 +57,14 @@ CHECKS = {
         'oracle: exhaustive n! assignment search and per-position recomputation.',
    note=PROOF_NOTE + ' Position reporting under grouping (ungroupify o groupify) is covered by the correspondence and the per-group position oracle, not yet by a Lean theorem; numpy float sums in get_best_result are exact only for the dyadic credits used there.',
    technique='Lean 4 proof (optimal assignment via Munkres theorem, max-total selection) + exact correspondence + n! oracle', design='§6 C05'),
+ 'C01': dict(
+   text='AbstractGrader.__call__ (error mapping, key stripping, attempt credit, debug append, message formatting) modelled on top of the item/list combinators; proved: shape (single form for one input; list form with exactly one entry per checked entry), '
+        'debug non-interference (with debug off the result does not depend on the log), range [0,1] and ok = f(grade) for ItemGrader.check / process_grade_list / consolidate_grades given a leaf contract, attempt scaling keeps ranges and recomputes ok (C17 theorems), '
+        'only library errors escape with debug off. Tie: whole calls of generated grader trees (table leaves with scripted exceptions, SingleList, List ordered/unordered/grouped, attempt credit, debug, garbage inputs) vs the model; '
+        'the C01 predicate is evaluated on every returned value; contract monitor on real String/Formula/Numerical/Matrix/Interval/Sum/List graders.',
+   note=PROOF_NOTE + ' Partial: Formula/Numerical/Matrix/Interval/Sum leaves are parameters with the contract LeafWF (grade in [0,1], ok consistent), which is monitored on the real graders, not proved; float rounding inside those leaves is outside the model. '
+        'Known finding K4 (summation graders return the single form for list input) is announced.',
+   technique='Lean 4 proof (shape/range/consistency invariants through the call wrapper) + whole-call correspondence + predicate monitor', design='§6 C01'),
 }
 NA_REASON = 'check not built yet in this round (planned: see DESIGN.md §6); not claimed until its model, theorems and correspondence exist'
 
